@@ -1681,7 +1681,7 @@ Proof.
                   (solve kinds (gfix fuel) (afix kinds (gfix fuel) fuel) (r_stmts r) (find_start (r_vars r)))).
   { unfold solve. apply (np_bind _ (fun _ _ => True)); [mn| |intros _].
     { apply (np_iterM_in (fun n => N0 <= n)); [mn|]. intros st Hin. rewrite forallb_forall in Hst.
-      apply (np_outer_statement kinds N0 KB (gfix fuel) PG _ PA). apply Hst. apply filter_In in Hin. tauto. }
+      apply (np_outer_statement kinds N0 KB (gfix fuel) PG _ PA). apply Hst. exact (proj1 (type_decl_order_In _ _ Hin)). }
     apply (np_bind _ (fun _ _ => True)); [mn| |intros _].
     - eapply np_pre; [|apply (np_iterM_in (fun n => N0 <= n)); [mn|]]; [intros n [X _]; exact X|].
       intros st Hin. rewrite forallb_forall in Hst.
